@@ -288,6 +288,8 @@ def run(ctx):
     from props import glue
     glue.filter_vs_match(ctx, rng)
     glue.escape_default_platform(ctx, rng)
+    from props import clauses
+    clauses.dotdot_paths(ctx)
     return ctx.finish(RULE)
 
 
